@@ -86,7 +86,13 @@ def summarise_e1(pid, cfg, tps, results, wall, extra_assumptions=()):
     solver_kinds = [o for o in obls if "≡" in o["kind"]]
     discharged = [o for o in solver_kinds if o["status"] == "unsat"]
     sat_replayed = [o for o in solver_kinds if o["status"] in ("violation", "engine-error", "model-divergence", "unconfirmed-unspecified")]
-    inconclusive = [o for o in obls if o["status"].startswith(("unknown", "skipped")) or o["status"] in ("model-divergence", "unconfirmed-unspecified", "model-mismatch")]
+    permitted_refusals = [o for o in obls if o["status"].startswith("skipped") and ":refused:" in o["status"]]
+    inconclusive = [
+        o
+        for o in obls
+        if (o["status"].startswith(("unknown", "skipped")) and o not in permitted_refusals)
+        or o["status"] in ("model-divergence", "unconfirmed-unspecified", "model-mismatch")
+    ]
     harness = [o for o in obls if o["status"].startswith("harness-error") or o["status"].startswith("vacuous") or o["status"].startswith("blind")]
     structural = [o for o in obls if o["status"].startswith("structural")]
     violations = []
@@ -121,6 +127,7 @@ def summarise_e1(pid, cfg, tps, results, wall, extra_assumptions=()):
         "discharged": len(discharged),
         "sat_replayed": len(sat_replayed),
         "inconclusive": len(inconclusive),
+        "obligations_skipped_because_sql_refused": len(permitted_refusals),
         "inconclusive_list": [f"{o['template']}:{o['kind']}:{o['status']}" for o in inconclusive][:60],
         "harness_faults": [f"{o['template']}:{o['kind']}:{o['status']}" for o in harness][:40],
         "structural_obligations": len(structural),
